@@ -27,10 +27,11 @@ theorem quote_tokens (mn : Int) (d : Nat) (inner : List BRule) (s : BState) (lin
       (∀ innerToks, s4.tokens = s3.tokens ++ innerToks →
         s'.tokens = s.tokens ++ ([openT.setMap (some (line, s4.line))] ++ innerToks ++ [closeT])) ∧
       openT.nesting = 1 ∧ openT.level = s.level ∧ openT.type = "blockquote_open" ∧
-      closeT.nesting = -1 ∧ closeT.level = s4.level - 1 ∧ closeT.type = "blockquote_close" := by
-  obtain ⟨next, s2, s4, ht2, hv2, hlen3, hend3, hLv3, hrun, htok⟩ := h
+      closeT.nesting = -1 ∧ closeT.level = s4.level - 1 ∧ closeT.type = "blockquote_close" ∧
+      s'.line = s4.line ∧ openT.map = some (line, 0) ∧ closeT.map = none := by
+  obtain ⟨next, s2, s4, ht2, hv2, hlen3, hend3, hLv3, hrun, htok, hline⟩ := h
   refine ⟨_, s4, next, pushedTok { s2 with blkIndent := 0 } "blockquote_open" "blockquote" 1 (some (line, 0)) none "" ">" "",
-    pushedTok s4 "blockquote_close" "blockquote" (-1) none none "" ">" "", ?_, hlen3, hend3, hLv3, hrun, ?_, ?_, rfl, ?_, rfl, rfl, ?_, rfl⟩
+    pushedTok s4 "blockquote_close" "blockquote" (-1) none none "" ">" "", ?_, hlen3, hend3, hLv3, hrun, ?_, ?_, rfl, ?_, rfl, rfl, ?_, rfl, hline, rfl, rfl⟩
   · rw [pushFull_level_open]; simp [hv2]
   · rw [pushFull_tokens]; simp [ht2]
   · intro innerToks h4
@@ -92,7 +93,7 @@ theorem qChain_seg (S : BState → List Tok → Prop) (hw : QuoteWrap S) (c : Mi
         rcases key s line endLine hc with h' | ⟨s'', h', _, _, _, hrunq⟩
         · rw [h'] at h; cases h
         · rw [h'] at h; cases h
-          obtain ⟨s3, s4, next, openT, closeT, hl3, hlen3, hend3, hLv3, hrun, htok3, htok, ho1, ho2, ho3, hc1, hc2, hc3⟩ :=
+          obtain ⟨s3, s4, next, openT, closeT, hl3, hlen3, hend3, hLv3, hrun, htok3, htok, ho1, ho2, ho3, hc1, hc2, hc3, _, _, _⟩ :=
             quote_tokens mn d _ s line s' hrunq
           obtain ⟨segs, hs4, hS⟩ := ih.2 s3 line next s4 hlen3 hend3 hLv3 hrun
           obtain ⟨s4', hrun', hfr4, _⟩ := (qChain_ok c ws mn d).2 s3 line next hlen3 hend3 hLv3
